@@ -250,6 +250,16 @@ def opMAKE (args res : List String) : Findings := Id.run do
         if (p'.castleK c && !p.castleK c) || (p'.castleQ c && !p.castleQ c) then fs := fs.push (fO "mono" "castling right came back")
         if countMen p' c > countMen p c then fs := fs.push (fO "mono" "men count grew")
         if countPawns p' c > countPawns p c then fs := fs.push (fO "mono" "pawn count grew")
+  else if Valid p then
+    -- every MAKE line of the streams applies a move the library itself generated.  When the rules do not allow it
+    -- (C01's business), closure (C05) can still be judged on what the library then does: the position reached
+    -- by a generated move must again be valid
+    match board? implB with
+    | none => pure ()
+    | some b' =>
+      let p' := memo b'.abs
+      if !Valid p' then fs := fs.push (fO "valid" s!"a generated move (not legal under the rules) leads to a position that is not valid: {showPos p'}")
+      else if implSane != "1" then fs := fs.push (fO "sane" "is_sane rejects a position reached by a generated move")
   return fs
 
 def opNULL (args res : List String) : Findings := Id.run do
